@@ -18,7 +18,7 @@ EXPLANATION = 'theorems about the builder models (bounds = rate * dt, invariance
 
 
 def scenarios(seed, tier):
-    n = 200 if tier == 'quick' else 2000
+    n = 400 if tier == 'quick' else 2400
     rnd = random.Random(seed * 7919 + 12)
     for i in range(n):
         oc = CT.gen_oracle_case(random.Random(rnd.getrandbits(48)))
@@ -89,7 +89,7 @@ def _split_cases(seed, n):
     from . import c14
     k = 0
     for cid, s in c14.scenarios(seed + 1000, 'quick'):
-        if s['grid'].get('unit', 'h') != 'h' and s['stream'] in ('uncoupled', 'takes'):
+        if s['grid'].get('unit', 'h') != 'h' and s['stream'] in ('uncoupled', 'takes') and not s.get('fixed_scaled'):
             yield 'split%d' % k, {'stream': 'split', 'case': s}
             k += 1
             if k >= n:
